@@ -363,8 +363,13 @@ def specs(tier, seed):
         out.append(("T1risk", dict(v[0], shape="T1", capital=64.0, unit_risk=True, preops=[["transact", [], "a", 3.0], ["algos", [], {}, "UpdateRisk", ["M1", 2]]]), 1, 3))
         # quotes of exactly zero: a trade there moves no cash at all
         out.append(("T1zero", dict(v[2], shape="T1", capital=64.0, prices={"a": [4.0, 0.0, 2.0, 0.0], "b": [1.0, 2.0, 0.0, 1.0]}, preops=[["next"]]), 1, 2))
+        # a tree whose first update is not on the first row of its data (a run that starts late)
+        out.append(("T1late", dict(v[1 + seed % 2], shape="T1", capital=64.0, start_row=2), 1, 2))
+        out.append(("T2late", dict(b, shape="T2", capital=64.0, start_row=1, prefund=[[[], "s1", 24.0], [[], "s2", 8.0]]), 1, 1))
     else:
         for x in v:
+            out.append(("T1late", dict(x, shape="T1", capital=64.0, start_row=2), 2, 3))
+            out.append(("T2late", dict(x, shape="T2", capital=64.0, start_row=1, prefund=[[[], "s1", 24.0], [[], "s2", 8.0]]), 1, 2))
             out.append(("T1", dict(x, shape="T1", capital=64.0), 2, 3))  # (length 4 = 16^4 histories x 5 positions x 4 runs does not fit into the hour this tier has)
             out.append(("T2", dict(x, shape="T2", capital=64.0, prefund=[[[], "s1", 24.0], [[], "s2", 8.0]]), 2, 3))
             out.append(("T2u", dict(x, shape="T2", capital=64.0), 2, 3))
